@@ -4,7 +4,7 @@
 From Coq Require Import List ZArith QArith Bool.
 From PV Require Import lib.Sx lib.Str lib.Result model.GenScc model.SccTime model.SccStash model.SccDecoder model.SccLayout.
 From PV Require Import spec.Spec608 spec.SpecScc05.
-From PV Require Import proofs.SccTableFacts proofs.SccTableFixFacts proofs.SccDoubleFacts proofs.SccItalicsFacts.
+From PV Require Import proofs.SccTableFacts proofs.SccTableFixFacts proofs.SccDoubleFacts proofs.SccItalicsFacts proofs.SccPoponStage1.
 Import ListNotations.
 Open Scope Z_scope.
 
@@ -139,6 +139,38 @@ Print Assumptions C05_captions_balanced.
 Theorem C05_passes_keep_plain_nodes : forall l, filter plain (passes16 l) = filter keep l.
 Proof. exact passes16_keep_plain. Qed.
 Print Assumptions C05_passes_keep_plain_nodes.
+
+(* ---- popon_refines_608, STAGE 1 (the full statement, kept here as the goal of the staged proof:
+        forall p, dom_c05 p = true -> ok_c05 p (observe (read (lines_of (emit p)))) = true ).
+   Closed for: one load, one row of basic characters, ANY row / indent / tab offset, control codes single or doubled
+   (PAC+TO doubled as a unit), any timecodes whose instants exist. The decoder queues exactly one text node carrying
+   the row's characters at the row's cursor address at the End-Of-Caption instant ... --------------------------------- *)
+Theorem C05_popon_stage1_partial : forall d r off tc, basic_row r = true ->
+  (forall k, exists t, get_time tc k off = Ok t) ->
+  let ws := emit_load d [r] in
+  let s := translate_words (start_state off tc) ws in
+  r_err s = None /\ r_stash s = stash0 /\ buf s = creator0 /\ r_active s = MPop /\
+  exists t, get_time tc (Z.of_nat (length ws) - (if d then 2 else 1)) off = Ok t /\
+            r_queue s = Some (mkCr [mkI IText (row_text r) (row_pos r)] SNone, t).
+Proof. exact popon_stage1. Qed.
+Print Assumptions C05_popon_stage1_partial.
+(* ... read returns exactly one caption with these characters, this address, from the EOC instant to the EDM instant,
+   and that caption, observed as the harness observes it, satisfies the property oracle ok_c05 *)
+Theorem C05_popon_stage1_refines_partial : forall d r off tc tc2 t1 t2, basic_row r = true ->
+  (forall k, exists t, get_time tc k off = Ok t) ->
+  get_time tc (Z.of_nat (length (emit_load d [r])) - (if d then 2 else 1)) off = Ok t1 ->
+  get_time tc2 0 off = Ok t2 -> Qeq_bool t2 0 = false -> is_flash (mkPre t1 t2 [] None) = false ->
+  (t1 < t2)%Q ->
+  read off [(tc, emit_load d [r]); (tc2, emit_clear d)] =
+    ROk [mkPre t1 t2 [CText (row_text r) (row_pos r)] (Some (row_pos r))] /\
+  ok_c05 (mkProg d [[r]]) (Ok [mkO t1 t2 [OText (row_text r)] (Some (layout_of_pos (row_pos r)))]) = true.
+Proof. exact popon_stage1_ok. Qed.
+Print Assumptions C05_popon_stage1_refines_partial.
+Example C05_stage1_nonvacuous :
+  basic_row (mkRow 15 4 2 false [Ch 72; Ch 105; Ch 33]) = true /\
+  emit_load true [mkRow 15 4 2 false [Ch 72; Ch 105; Ch 33]] =
+    [38062; 38062; 37920; 37920; 38130; 38818; 38130; 38818; 51433; 41344; 37935; 37935].
+Proof. vm_compute. split; reflexivity. Qed.
 
 (* ---- non-vacuity / behaviour after fix #22: the second caption is addressed on its own ---------------------------- *)
 Example C05_example_two_loads :
